@@ -375,7 +375,9 @@ class Spec:
         if parts[0] == "data" and parts[3] == "es" and self.client and int(parts[1]) % 2 == 0 and int(parts[1]) in st.As:
             # a pushed stream is over once the peer ends it (our side never was open): checked one last time above, then
             # nothing more is demanded of its accessors or of calls on it
-            st.As.pop(int(parts[1]))
+            # (its window lives on in the stream table until the library sweeps it, and still takes part in the
+            # unspecified-region test for a local INITIAL_WINDOW_SIZE change, like the windows of streams we reset)
+            st.gone[int(parts[1])] = st.As.pop(int(parts[1]))
             st.unacked.pop(int(parts[1]), None)
         if viols:
             st.dead = True
